@@ -18,14 +18,16 @@ structure LAdv (a : Orig) (cs : Nat) (chunk : Text) (st : RSt) (l : LSt) : Prop 
   inb : l.chunkPos < chunk.length
   orig : ∃ n, l.orig = some { a with col := a.col + l.chunkPos, name := n }
 
-/-- a delivered chunk reports `a`'s source and line and the column `a.col + p` for an offset `p` inside the inner chunk -/
-def AtOffset (a : Orig) (chunk : Text) (mm : Mapping) : Prop :=
-  ∃ p, p < chunk.length ∧ ∃ y, mm.orig = some y ∧ y.src = a.src ∧ y.line = a.line ∧ y.col = a.col + p
+/-- a delivered chunk reports `a`'s source and line and the column `a.col + p` for an offset `p` inside the inner chunk, and it is
+either the piece `chunk[p..q)` of the inner text or a line of the content of one of the replacements `RS` -/
+def AtOffset (RS : List Repl) (a : Orig) (chunk : Text) (t : Option Text) (mm : Mapping) : Prop :=
+  ∃ p, p < chunk.length ∧ (∃ y, mm.orig = some y ∧ y.src = a.src ∧ y.line = a.line ∧ y.col = a.col + p)
+    ∧ ((∃ q, p < q ∧ q ≤ chunk.length ∧ t = some (bsub chunk p q)) ∨ (∃ r ∈ RS, ∃ cl ∈ splitLines r.content, t = some cl))
 
-def AllAt (a : Orig) (chunk : Text) (evs : List Ev) : Prop := ∀ t mm, Ev.chunk t mm ∈ evs → AtOffset a chunk mm
+def AllAt (RS : List Repl) (a : Orig) (chunk : Text) (evs : List Ev) : Prop := ∀ t mm, Ev.chunk t mm ∈ evs → AtOffset RS a chunk t mm
 
-theorem allAt_nil (a : Orig) (chunk : Text) : AllAt a chunk [] := fun t mm h => by simp at h
-theorem allAt_append (a : Orig) (chunk : Text) (x y : List Ev) (hx : AllAt a chunk x) (hy : AllAt a chunk y) : AllAt a chunk (x ++ y) := by
+theorem allAt_nil (RS : List Repl) (a : Orig) (chunk : Text) : AllAt RS a chunk [] := fun t mm h => by simp at h
+theorem allAt_append (RS : List Repl) (a : Orig) (chunk : Text) (x y : List Ev) (hx : AllAt RS a chunk x) (hy : AllAt RS a chunk y) : AllAt RS a chunk (x ++ y) := by
   intro t mm h
   rcases List.mem_append.1 h with h | h
   · exact hx t mm h
@@ -41,50 +43,68 @@ theorem advOrig_fm (contents : List (Option Text)) (a : Orig) (chunk : Text) (hf
     exact this
   simp only [hc, if_true]
 
-theorem emitContent_at (a : Orig) (chunk : Text) (gc : Nat) (orig : Option Orig) (p : Nat) (hp : p < chunk.length)
+theorem emitContent_at (RS : List Repl) (a : Orig) (chunk : Text) (gc : Nat) (orig : Option Orig) (p : Nat) (hp : p < chunk.length)
     (ho : ∃ n, orig = some { a with col := a.col + p, name := n }) :
-    ∀ (cls : List Text) (nameIdx : Option Nat) (st : RSt) (line : Int),
-    AllAt a chunk (emitContent gc orig cls nameIdx st line).2.1 ∧ (emitContent gc orig cls nameIdx st line).1.pos = st.pos
-    ∧ (emitContent gc orig cls nameIdx st line).1.contents = st.contents := by
+    ∀ (cls : List Text) (nameIdx : Option Nat) (st : RSt) (line : Int), (∀ cl ∈ cls, ∃ r ∈ RS, cl ∈ splitLines r.content) →
+    AllAt RS a chunk (emitContent gc orig cls nameIdx st line).2.1 ∧ (emitContent gc orig cls nameIdx st line).1.pos = st.pos
+    ∧ (emitContent gc orig cls nameIdx st line).1.contents = st.contents ∧ (emitContent gc orig cls nameIdx st line).1.rest = st.rest := by
   intro cls
   induction cls with
-  | nil => intro nameIdx st line; exact ⟨allAt_nil _ _, rfl, rfl⟩
+  | nil => intro nameIdx st line _; exact ⟨allAt_nil _ _ _, rfl, rfl, rfl⟩
   | cons cl cls ih =>
-    intro nameIdx st line
+    intro nameIdx st line hcls
+    have hcls' : ∀ x ∈ cls, ∃ r ∈ RS, x ∈ splitLines r.content := fun x hx => hcls x (List.mem_cons_of_mem _ hx)
     obtain ⟨n, hn⟩ := ho
-    have hev : AtOffset a chunk ⟨u32 line, gcolOf st line gc, orig.map fun o => { o with name := nameIdx }⟩ :=
-      ⟨p, hp, { a with col := a.col + p, name := nameIdx }, by rw [hn]; rfl, rfl, rfl, rfl⟩
+    obtain ⟨r0, hr0, hcl0⟩ := hcls cl (by simp)
+    have hev : AtOffset RS a chunk (some cl) ⟨u32 line, gcolOf st line gc, orig.map fun o => { o with name := nameIdx }⟩ :=
+      ⟨p, hp, ⟨{ a with col := a.col + p, name := nameIdx }, by rw [hn]; rfl, rfl, rfl, rfl⟩, Or.inr ⟨r0, hr0, cl, hcl0, rfl⟩⟩
     simp only [emitContent]
     split
-    · obtain ⟨i1, i2, i3⟩ := ih none (if st.colOffLine == line then { st with colOff := st.colOff + cl.length } else { st with colOff := cl.length, colOffLine := line }) line
-      refine ⟨?_, by rw [i2]; split <;> rfl, by rw [i3]; split <;> rfl⟩
+    · obtain ⟨i1, i2, i3, i4⟩ := ih none (if st.colOffLine == line then { st with colOff := st.colOff + cl.length } else { st with colOff := cl.length, colOffLine := line }) line hcls'
+      refine ⟨?_, by rw [i2]; split <;> rfl, by rw [i3]; split <;> rfl, by rw [i4]; split <;> rfl⟩
       intro t mm h
       simp only [List.mem_cons] at h
       rcases h with h | h
       · cases h; exact hev
       · exact i1 t mm h
-    · obtain ⟨i1, i2, i3⟩ := ih none { st with lineOff := st.lineOff + 1, colOff := -(gc : Int), colOffLine := line + 1 } (line + 1)
-      refine ⟨?_, i2, i3⟩
+    · obtain ⟨i1, i2, i3, i4⟩ := ih none { st with lineOff := st.lineOff + 1, colOff := -(gc : Int), colOffLine := line + 1 } (line + 1) hcls'
+      refine ⟨?_, i2, i3, i4⟩
       intro t mm h
       simp only [List.mem_cons] at h
       rcases h with h | h
       · cases h; exact hev
       · exact i1 t mm h
 
-theorem mapName_at (a : Orig) (chunk : Text) (nim : List Nat) (p : Nat) (hp : p < chunk.length) (orig : Option Orig)
-    (ho : ∃ n, orig = some { a with col := a.col + p, name := n }) (gl gc : Nat) : AtOffset a chunk ⟨gl, gc, mapName nim orig⟩ := by
+theorem mapName_at (RS : List Repl) (a : Orig) (chunk : Text) (nim : List Nat) (p : Nat) (hp : p < chunk.length) (orig : Option Orig)
+    (ho : ∃ n, orig = some { a with col := a.col + p, name := n }) (gl gc : Nat) (q : Nat) (hq : p < q ∧ q ≤ chunk.length) :
+    AtOffset RS a chunk (some (bsub chunk p q)) ⟨gl, gc, mapName nim orig⟩ := by
   obtain ⟨n, hn⟩ := ho
-  exact ⟨p, hp, { a with col := a.col + p, name := n.bind fun k => nim[k]? }, by rw [hn]; rfl, rfl, rfl, rfl⟩
+  exact ⟨p, hp, ⟨{ a with col := a.col + p, name := n.bind fun k => nim[k]? }, by rw [hn]; rfl, rfl, rfl, rfl⟩, Or.inl ⟨q, hq.1, hq.2, rfl⟩⟩
 
-theorem rIter_adv (a : Orig) (chunk : Text) (gl cs : Nat) (r : Repl) (rs : List Repl) (st : RSt) (l : LSt)
-    (hfm : FM st.contents a chunk) (hl : LAdv a cs chunk st l) (hr : r.start < cs + chunk.length) :
-    AllAt a chunk (rIter chunk gl (cs + chunk.length) r rs st l).1
+theorem bsub_to_end (t : Text) (p : Nat) : bsub t p t.length = t.drop p := by
+  unfold bsub
+  rw [List.take_of_length_le (by simp)]
+
+theorem colShift_rest' (st : RSt) (line by_ : Int) : (colShift st line by_).rest = st.rest := by
+  unfold colShift
+  split <;> rfl
+
+theorem skipWhole_rest' (st : RSt) (chunk : Text) (gl gc remain endPos : Nat) : (skipWhole st chunk gl gc remain endPos).rest = st.rest := by
+  unfold skipWhole
+  dsimp only
+  split
+  · split <;> rfl
+  · split <;> rfl
+
+theorem rIter_adv (RS : List Repl) (a : Orig) (chunk : Text) (gl cs : Nat) (r : Repl) (rs : List Repl) (st : RSt) (l : LSt)
+    (hfm : FM st.contents a chunk) (hl : LAdv a cs chunk st l) (hr : r.start < cs + chunk.length) (hrm : r ∈ RS) :
+    AllAt RS a chunk (rIter chunk gl (cs + chunk.length) r rs st l).1
     ∧ (match (rIter chunk gl (cs + chunk.length) r rs st l).2 with
-       | .done _ => True
-       | .cont st' l' => LAdv a cs chunk st' l' ∧ st'.contents = st.contents) := by
+       | .done st' => st'.rest = rs
+       | .cont st' l' => LAdv a cs chunk st' l' ∧ st'.contents = st.contents ∧ st'.rest = rs) := by
   obtain ⟨p1, p2, n0, p3⟩ := hl
   -- rBefore
-  have hb : AllAt a chunk (rBefore chunk ((gl : Int) + st.lineOff) r st l).2.2
+  have hb : AllAt RS a chunk (rBefore chunk ((gl : Int) + st.lineOff) r st l).2.2
       ∧ LAdv a cs chunk (rBefore chunk ((gl : Int) + st.lineOff) r st l).1 (rBefore chunk ((gl : Int) + st.lineOff) r st l).2.1
       ∧ (rBefore chunk ((gl : Int) + st.lineOff) r st l).1.contents = st.contents := by
     unfold rBefore
@@ -93,9 +113,9 @@ theorem rIter_adv (a : Orig) (chunk : Text) (gl cs : Nat) (r : Repl) (rs : List 
       have hend : l.chunkPos + (r.start - st.pos) < chunk.length := by omega
       refine ⟨?_, ⟨by simp only; omega, hend, ?_⟩, by first | rfl | trivial⟩
       · intro t mm h
-        simp only [List.mem_singleton] at h
-        cases h
-        exact mapName_at a chunk st.nim l.chunkPos p2 l.orig ⟨n0, p3⟩ _ _
+        simp only [List.mem_singleton, Ev.chunk.injEq] at h
+        obtain ⟨rfl, rfl⟩ := h
+        exact mapName_at RS a chunk st.nim l.chunkPos p2 l.orig ⟨n0, p3⟩ _ _ (l.chunkPos + (r.start - st.pos)) ⟨by omega, Nat.le_of_lt hend⟩
       · refine ⟨n0, ?_⟩
         simp only
         rw [p3, advOrig_fm st.contents a chunk hfm l.chunkPos (l.chunkPos + (r.start - st.pos)) (by omega) (Nat.le_of_lt hend),
@@ -103,22 +123,23 @@ theorem rIter_adv (a : Orig) (chunk : Text) (gl cs : Nat) (r : Repl) (rs : List 
         congr 2
         omega
     · simp only [hgt, if_false]
-      exact ⟨allAt_nil _ _, ⟨p1, p2, n0, p3⟩, by first | rfl | trivial⟩
+      exact ⟨allAt_nil _ _ _, ⟨p1, p2, n0, p3⟩, by first | rfl | trivial⟩
   obtain ⟨b1, b2, b3⟩ := hb
   obtain ⟨q1, q2, nb, q3⟩ := b2
   obtain ⟨_, _, _, _, nf5⟩ := rName_facts r (rBefore chunk ((gl : Int) + st.lineOff) r st l).1 (rBefore chunk ((gl : Int) + st.lineOff) r st l).2.1
   obtain ⟨nk1, nsc⟩ := rName_keeps st.contents none r (rBefore chunk ((gl : Int) + st.lineOff) r st l).1 (rBefore chunk ((gl : Int) + st.lineOff) r st l).2.1
-  have hname : AllAt a chunk (rName r (rBefore chunk ((gl : Int) + st.lineOff) r st l).1 (rBefore chunk ((gl : Int) + st.lineOff) r st l).2.1).2.1 := by
+  have hname : AllAt RS a chunk (rName r (rBefore chunk ((gl : Int) + st.lineOff) r st l).1 (rBefore chunk ((gl : Int) + st.lineOff) r st l).2.1).2.1 := by
     intro t mm h
     unfold rName at h
     split at h
     · exact absurd h (globalName_noChunkMem _ _ t mm)
     · simp at h
-  obtain ⟨c1, c2, c3⟩ := emitContent_at a chunk (rBefore chunk ((gl : Int) + st.lineOff) r st l).2.1.gc (rBefore chunk ((gl : Int) + st.lineOff) r st l).2.1.orig
+  obtain ⟨c1, c2, c3, _⟩ := emitContent_at RS a chunk (rBefore chunk ((gl : Int) + st.lineOff) r st l).2.1.gc (rBefore chunk ((gl : Int) + st.lineOff) r st l).2.1.orig
     (rBefore chunk ((gl : Int) + st.lineOff) r st l).2.1.chunkPos q2 ⟨nb, q3⟩ (splitLines r.content)
     (rName r (rBefore chunk ((gl : Int) + st.lineOff) r st l).1 (rBefore chunk ((gl : Int) + st.lineOff) r st l).2.1).2.2
     (rName r (rBefore chunk ((gl : Int) + st.lineOff) r st l).1 (rBefore chunk ((gl : Int) + st.lineOff) r st l).2.1).1 ((gl : Int) + st.lineOff)
-  have hall := allAt_append _ _ _ _ (allAt_append _ _ _ _ b1 hname) c1
+    (fun cl hcl => ⟨r, hrm, hcl⟩)
+  have hall := allAt_append _ _ _ _ _ (allAt_append _ _ _ _ _ b1 hname) c1
   have hpos4 : (emitContent (rBefore chunk ((gl : Int) + st.lineOff) r st l).2.1.gc (rBefore chunk ((gl : Int) + st.lineOff) r st l).2.1.orig (splitLines r.content)
       (rName r (rBefore chunk ((gl : Int) + st.lineOff) r st l).1 (rBefore chunk ((gl : Int) + st.lineOff) r st l).2.1).2.2
       (rName r (rBefore chunk ((gl : Int) + st.lineOff) r st l).1 (rBefore chunk ((gl : Int) + st.lineOff) r st l).2.1).1 ((gl : Int) + st.lineOff)).1.pos
@@ -134,11 +155,11 @@ theorem rIter_adv (a : Orig) (chunk : Text) (gl cs : Nat) (r : Repl) (rs : List 
   split
   · rename_i hoff
     split
-    · exact ⟨hall, trivial⟩
+    · exact ⟨hall, by simp only; rw [skipWhole_rest']⟩
     · rename_i hre
       have hend : b.2.1.chunkPos + ((chunk.length : Int) - ((cs + chunk.length : Nat) : Int) + ((max (reOf c.1) r.stop : Nat) : Int) - (b.2.1.chunkPos : Int)).toNat < chunk.length := by
         omega
-      refine ⟨hall, ⟨?_, hend, ?_⟩, ?_⟩
+      refine ⟨hall, ⟨?_, hend, ?_⟩, ?_, by rw [colShift_rest']⟩
       · unfold colShift
         split <;> simp only <;> rw [hpos4] <;> omega
       · refine ⟨nb, ?_⟩
@@ -148,47 +169,51 @@ theorem rIter_adv (a : Orig) (chunk : Text) (gl cs : Nat) (r : Repl) (rs : List 
         omega
       · unfold colShift
         split <;> simp only <;> exact hcont4
-  · exact ⟨hall, ⟨⟨hpos4, q2, nb, q3⟩, hcont4⟩⟩
+  · exact ⟨hall, ⟨⟨hpos4, q2, nb, q3⟩, hcont4, by first | rfl | trivial⟩⟩
 
-theorem rLoop_adv (a : Orig) (chunk : Text) (gl cs : Nat) : ∀ (rs : List Repl) (st : RSt) (l : LSt), FM st.contents a chunk → LAdv a cs chunk st l →
-    AllAt a chunk (rLoop chunk gl (cs + chunk.length) rs st l).2.1
+theorem rLoop_adv (RS : List Repl) (a : Orig) (chunk : Text) (gl cs : Nat) : ∀ (rs : List Repl) (st : RSt) (l : LSt), FM st.contents a chunk → LAdv a cs chunk st l →
+    (∀ r ∈ rs, r ∈ RS) →
+    AllAt RS a chunk (rLoop chunk gl (cs + chunk.length) rs st l).2.1
+    ∧ (∀ r ∈ (rLoop chunk gl (cs + chunk.length) rs st l).1.rest, r ∈ RS)
     ∧ ∀ l2, (rLoop chunk gl (cs + chunk.length) rs st l).2.2 = some l2 → l2.chunkPos < chunk.length ∧ ∃ n, l2.orig = some { a with col := a.col + l2.chunkPos, name := n } := by
   intro rs
   induction rs with
   | nil =>
-    intro st l _ hl
+    intro st l _ hl _
     simp only [rLoop]
-    exact ⟨allAt_nil _ _, fun l2 h2 => by simp only [Option.some.injEq] at h2; subst h2; exact ⟨hl.inb, hl.orig⟩⟩
+    exact ⟨allAt_nil _ _ _, fun r hr => (by simp at hr), fun l2 h2 => by simp only [Option.some.injEq] at h2; subst h2; exact ⟨hl.inb, hl.orig⟩⟩
   | cons r rs ih =>
-    intro st l hfm hl
+    intro st l hfm hl hrs
+    have hrs' : ∀ x ∈ rs, x ∈ RS := fun x hx => hrs x (List.mem_cons_of_mem _ hx)
     simp only [rLoop]
     split
     · rename_i hr
-      obtain ⟨a1, a2⟩ := rIter_adv a chunk gl cs r rs st l hfm hl hr
+      obtain ⟨a1, a2⟩ := rIter_adv RS a chunk gl cs r rs st l hfm hl hr (hrs r (by simp))
       split
       · rename_i evs st' heq
-        rw [heq] at a1
-        exact ⟨a1, fun l2 h2 => by cases h2⟩
+        rw [heq] at a1 a2
+        simp only at a2
+        exact ⟨a1, by rw [a2]; exact hrs', fun l2 h2 => by cases h2⟩
       · rename_i evs st' l' heq
         rw [heq] at a1 a2
         simp only at a2
-        obtain ⟨i1, i2⟩ := ih st' l' (by rw [a2.2]; exact hfm) a2.1
-        exact ⟨allAt_append _ _ _ _ a1 i1, i2⟩
-    · exact ⟨allAt_nil _ _, fun l2 h2 => by simp only [Option.some.injEq] at h2; subst h2; exact ⟨hl.inb, hl.orig⟩⟩
+        obtain ⟨i1, i2, i3⟩ := ih st' l' (by rw [a2.2.1]; exact hfm) a2.1 hrs'
+        exact ⟨allAt_append _ _ _ _ _ a1 i1, i2, i3⟩
+    · exact ⟨allAt_nil _ _ _, hrs, fun l2 h2 => by simp only [Option.some.injEq] at h2; subst h2; exact ⟨hl.inb, hl.orig⟩⟩
 
 /-- **the advance rule**: while the inner chunk `(chunk, m)` with original location `a` is processed and the recorded content
-spells out the chunk (`FM`), every delivered chunk — a piece of the inner text or replacement content spliced into it — reports
-`a`'s source and original line and the column `a.col + p`, where `p < |chunk|` is the byte offset in the inner chunk at which the
-piece was cut / the content was spliced -/
-theorem rOnChunk_adv (st : RSt) (chunk : Text) (hne : chunk ≠ []) (m : Mapping) (a : Orig) (hm : m.orig = some a) (hfm : FM st.contents a chunk) :
-    AllAt a chunk (rOnChunk st chunk m).2 := by
+spells out the chunk (`FM`), every delivered chunk is either the piece `chunk[p..q)` of the inner text or a line of replacement
+content spliced in at offset `p`, and reports `a`'s source and original line and the column `a.col + p` (`p < |chunk|`) -/
+theorem rOnChunk_adv (RS : List Repl) (st : RSt) (chunk : Text) (hne : chunk ≠ []) (m : Mapping) (a : Orig) (hm : m.orig = some a) (hfm : FM st.contents a chunk)
+    (hrest : ∀ r ∈ st.rest, r ∈ RS) :
+    AllAt RS a chunk (rOnChunk st chunk m).2 ∧ ∀ r ∈ (rOnChunk st chunk m).1.rest, r ∈ RS := by
   have ha0 : some a = some ({ a with col := a.col + 0, name := a.name } : Orig) := by cases a; rfl
   unfold rOnChunk
   dsimp only
   split
-  · exact allAt_nil _ _
+  · exact ⟨allAt_nil _ _ _, by rw [skipWhole_rest']; exact hrest⟩
   · rename_i st1 l1 hstart
-    have h1 : LAdv a st.pos chunk st1 l1 ∧ st1.contents = st.contents := by
+    have h1 : LAdv a st.pos chunk st1 l1 ∧ st1.contents = st.contents ∧ st1.rest = st.rest := by
       split at hstart
       · rename_i e hskip
         split at hstart
@@ -205,7 +230,7 @@ theorem rOnChunk_adv (st : RSt) (chunk : Text) (hne : chunk ≠ []) (m : Mapping
               · cases hskip
             · cases hskip
           have hcp : e - st.pos < chunk.length := by omega
-          refine ⟨⟨?_, hcp, ⟨a.name, ?_⟩⟩, ?_⟩
+          refine ⟨⟨?_, hcp, ⟨a.name, ?_⟩⟩, ?_, by rw [colShift_rest']⟩
           · unfold colShift; split <;> simp only
           · simp only
             rw [hm, ha0, advOrig_fm st.contents a chunk hfm 0 (e - st.pos) (Nat.zero_le _) (Nat.le_of_lt hcp)]
@@ -214,21 +239,98 @@ theorem rOnChunk_adv (st : RSt) (chunk : Text) (hne : chunk ≠ []) (m : Mapping
       · simp only [Option.some.injEq, Prod.mk.injEq] at hstart
         obtain ⟨e1, e2⟩ := hstart
         subst e1 e2
-        exact ⟨⟨by simp, List.length_pos_iff.2 hne, ⟨a.name, by simp only; rw [hm, ha0]⟩⟩, rfl⟩
-    obtain ⟨a1, a2⟩ := rLoop_adv a chunk m.gl st.pos st1.rest st1 l1 (by rw [h1.2]; exact hfm) h1.1
+        exact ⟨⟨by simp, List.length_pos_iff.2 hne, ⟨a.name, by simp only; rw [hm, ha0]⟩⟩, rfl, rfl⟩
+    obtain ⟨a1, a2, a3⟩ := rLoop_adv RS a chunk m.gl st.pos st1.rest st1 l1 (by rw [h1.2.1]; exact hfm) h1.1 (by rw [h1.2.2]; exact hrest)
     split
     · rename_i st2 evs heq
-      rw [heq] at a1
-      exact a1
-    · rename_i st2 evs l2 heq
       rw [heq] at a1 a2
-      obtain ⟨hle, hn⟩ := a2 l2 rfl
-      refine allAt_append _ _ _ _ a1 ?_
+      exact ⟨a1, a2⟩
+    · rename_i st2 evs l2 heq
+      rw [heq] at a1 a2 a3
+      obtain ⟨hle, hn⟩ := a3 l2 rfl
+      refine ⟨allAt_append _ _ _ _ _ a1 ?_, a2⟩
       rw [if_pos hle]
       intro t mm h
-      simp only [List.mem_singleton] at h
-      cases h
-      exact mapName_at a chunk st2.nim l2.chunkPos hle l2.orig hn _ _
+      simp only [List.mem_singleton, Ev.chunk.injEq] at h
+      obtain ⟨rfl, rfl⟩ := h
+      rw [← bsub_to_end chunk l2.chunkPos]
+      exact mapName_at RS a chunk st2.nim l2.chunkPos hle l2.orig hn _ _ chunk.length ⟨hle, Nat.le_refl _⟩
+
+/-! ### the pending replacements only shrink -/
+
+theorem emitContent_rest (gc : Nat) (orig : Option Orig) : ∀ (cls : List Text) (n : Option Nat) (st : RSt) (line : Int),
+    (emitContent gc orig cls n st line).1.rest = st.rest := by
+  intro cls
+  induction cls with
+  | nil => intro n st line; rfl
+  | cons cl cls ih =>
+    intro n st line
+    simp only [emitContent]
+    split
+    · rw [ih]; split <;> rfl
+    · rw [ih]
+
+def RNext.st : RNext → RSt
+  | .done st => st
+  | .cont st _ => st
+
+theorem rIter_rest (chunk : Text) (gl endPos : Nat) (r : Repl) (rs : List Repl) (st : RSt) (l : LSt) :
+    (rIter chunk gl endPos r rs st l).2.st.rest = rs := by
+  simp only [rIter]
+  split
+  · split
+    · simp only [RNext.st]; rw [skipWhole_rest']
+    · simp only [RNext.st]; rw [colShift_rest']
+  · rfl
+
+theorem rLoop_restSub (chunk : Text) (gl endPos : Nat) : ∀ (rs : List Repl) (st : RSt) (l : LSt),
+    ∀ r ∈ (rLoop chunk gl endPos rs st l).1.rest, r ∈ rs := by
+  intro rs
+  induction rs with
+  | nil => intro st l r hr; simp [rLoop] at hr
+  | cons x rs ih =>
+    intro st l r hr
+    simp only [rLoop] at hr
+    split at hr
+    · have h := rIter_rest chunk gl endPos x rs st l
+      split at hr
+      · rename_i evs st' heq
+        rw [heq] at h
+        simp only [RNext.st] at h
+        simp only at hr
+        rw [h] at hr
+        exact List.mem_cons_of_mem _ hr
+      · rename_i evs st' l' heq
+        simp only at hr
+        exact List.mem_cons_of_mem _ (ih st' l' r hr)
+    · exact hr
+
+theorem rOnChunk_restSub (st : RSt) (chunk : Text) (m : Mapping) : ∀ r ∈ (rOnChunk st chunk m).1.rest, r ∈ st.rest := by
+  intro r hr
+  unfold rOnChunk at hr
+  dsimp only at hr
+  split at hr
+  · rw [skipWhole_rest'] at hr; exact hr
+  · rename_i st1 l1 hstart
+    have h1 : st1.rest = st.rest := by
+      split at hstart
+      · split at hstart
+        · cases hstart
+        · simp only [Option.some.injEq, Prod.mk.injEq] at hstart
+          obtain ⟨e1, _⟩ := hstart
+          subst e1
+          rw [colShift_rest']
+      · simp only [Option.some.injEq, Prod.mk.injEq] at hstart
+        obtain ⟨e1, _⟩ := hstart
+        subst e1; rfl
+    have h2 := rLoop_restSub chunk m.gl (st.pos + chunk.length) st1.rest st1 l1
+    split at hr
+    · rename_i st2 evs heq
+      rw [heq] at h2
+      rw [← h1]; exact h2 r hr
+    · rename_i st2 evs l2 heq
+      rw [heq] at h2
+      rw [← h1]; exact h2 r hr
 
 /-- when is `FM` true: the recorded content line, read from `a`, starts with the (ASCII) chunk text -/
 theorem fm_of_prefix (contents : List (Option Text)) (a : Orig) (chunk c : Text) (ln : Text) (hc : contents[a.src]? = some (some c))
